@@ -36,4 +36,7 @@ def run(tier: str, seed: int):
         e3c += list(F.fam_e3(F.fam_shapes(1, 4, pre=False), workers=(None,), cpu_count=1, liveness=False)) + list(F.fam_e3(F.fam_limits(2, 3, tnames=('TA', 'TB')), workers=(1, 2), linger=True))
         e3c += list(F.fam_e3(F.fam_faults(1, 3, max_faults=2, kinds=('raise',), fault_exc='filter', types='TX'), workers=(1, 2), liveness=False))
         e3c += list(F.fam_e3(F.fam_shapes(2, 3, pre=False), workers=(1, 2), liveness=False, queue_scale=1)) + list(F.fam_e3(F.fam_shapes(2, 3, pre=False), workers=(1, 2), liveness=False, queue_scale=2, monitor=True))
+    if tier != 'quick':
+        x_cf, x_se, x_e3 = F.thorough_extras('C11')
+        cfgs, serial, e3c = list(cfgs) + x_cf, list(serial) + x_se, list(e3c) + x_e3
     return run_e2_property('C11', tier, seed, cfgs, serial_configs=serial, e3_configs=e3c, real_cases=list(F.fam_real(F.real_bases('faults') + F.real_bases('limits'), workers=(1, 2))), rule=rule, assumptions=ASSUME)
